@@ -103,6 +103,38 @@ def run(chk):
         g2 = np.asarray(linear_scoring(m2, ubm, sarg, off_arg, norm))
         if not np.allclose(g2, lam * got, rtol=1e-8, atol=10 * tol):
             chk.fail("score is not linear in the model offset (factor %g)" % lam, ctx)
+        # ... down to models that differ from the UBM by a small fraction of the size of its means (no "close enough to be un-adapted" shortcut);
+        # the reference is the closed formula on exactly the model that is scored
+        lam_s = 1e-4
+        m3 = umu[None] + lam_s * (models - umu[None])
+        g3 = np.asarray(linear_scoring(m3, ubm, sarg, off_arg, norm))
+        want3 = np.array([[ref_score(m3[a], umu, uvar, stats[b], offs[b], norm) for b in range(nt)] for a in range(nm)])
+        if not np.allclose(g3, want3, rtol=1e-7, atol=1e-9 * max(1e-300, float(np.abs(want3).max()))):
+            chk.fail("models differing from the UBM by 1e-4 of the offsets (tiny relative to the means) do not get the closed-formula score", dict(ctx, got=hexlist(g3), want=hexlist(want3)))
+        # test statistics stored in another numeric type (hard integer counts and sums; single precision): the score is that of their values
+        if i % 4 == 1:
+            for dt in (np.int64, np.float32):
+                st_t = []
+                for q_ in stats:
+                    c_ = copy.deepcopy(q_)
+                    if dt is np.int64:
+                        c_.n, c_.sum_px = np.rint(np.asarray(q_.n) * 4).astype(dt), np.rint(np.asarray(q_.sum_px) * 8).astype(dt)
+                    else:
+                        c_.n, c_.sum_px = np.asarray(q_.n).astype(dt), np.asarray(q_.sum_px).astype(dt)
+                    st_t.append(c_)
+                st_64 = []
+                for c_ in st_t:
+                    e_ = copy.deepcopy(c_)
+                    e_.n, e_.sum_px = np.asarray(c_.n, dtype=np.float64), np.asarray(c_.sum_px, dtype=np.float64)
+                    st_64.append(e_)
+                try:
+                    gt_ = np.asarray(linear_scoring(models, ubm, st_t if skind != "single" else st_t[0], off_arg, norm))
+                    g64 = np.asarray(linear_scoring(models, ubm, st_64 if skind != "single" else st_64[0], off_arg, norm))
+                    chk.count(1, key=("stats-dtype", np.dtype(dt).name))
+                    if not np.allclose(gt_, g64, rtol=1e-12, atol=0):
+                        chk.fail("linear scores of %s statistics differ from those of the same values in binary64" % np.dtype(dt).name, dict(ctx, dtype=np.dtype(dt).name))
+                except Exception as e:
+                    chk.fail("linear_scoring on %s statistics raises %r" % (np.dtype(dt).name, e), dict(ctx, dtype=np.dtype(dt).name))
         # additive over test statistics before normalisation (shared offset)
         if nt >= 2 and offkind != "tcd":
             pooled = stats[0] + stats[1]
